@@ -212,6 +212,17 @@ def delta_undef_sifts(src):
     raise Unparsed('term: DiracDelta * undefined-function branch not found')
 
 
+def fn_rejects_negative_scale(src):
+    """`function`: is the table (valid for a positive scale) refused for a time-reversed argument,
+         if scale.is_negative: return None ?"""
+    f = _method(src, 'function')
+    for node in f.body:
+        if isinstance(node, ast.If) and ast.unparse(node.test) == 'scale.is_negative':
+            if any(isinstance(r, ast.Return) and isinstance(r.value, ast.Constant) and r.value.value is None for r in node.body):
+                return True, node.lineno
+    return False, f.lineno
+
+
 def generate(repo):
     path = os.path.join(repo, 'lcapy', 'laplace.py')
     src = open(path).read()
@@ -265,6 +276,8 @@ def generate(repo):
         lines.append('def clipGuardTranslated : Bool := false')
     for (nm, fn, doc) in (('derivAppliesShift', deriv_applies_shift,
                            '`derivative_undef` (laplace.py:%d) applies the similarity/shift theorems to the differentiated function x(a t + b)'),
+                          ('fnRejectsNegScale', fn_rejects_negative_scale,
+                           '`function` (laplace.py:%d) returns None for a negative scale (the table holds for scale > 0 only)'),
                           ('deltaUndefSifts', delta_undef_sifts,
                            'the `DiracDelta * x(t)` branch of `term` (laplace.py:%d) applies the sifting property')):
         try:
